@@ -48,7 +48,10 @@ for sid in sorted(res):
         continue
     m = json.load(open(mp))
     prop = m["breaks_property"]
-    r = res[sid]
+    if m.get("status") == "superseded":
+        lines.append("| %s | %s | %s | superseded | | | %s |" % (sid, prop, m["mechanism"][:110].replace("|", "/"), notes.get(sid, "")))
+        continue
+    r = res.get(sid, {})
     own = r.get(prop, {})
     total += 1
     ok = own.get("rc") == "1"
